@@ -132,6 +132,7 @@ class World:
         self.monitor_after_event: Optional[Callable[[], None]] = None
         self.dead = False  # set when the simulated process has crashed
         self.stale_deliveries = 0
+        self.in_shutdown = False
 
     @staticmethod
     def draw_policy(ch: Choices) -> dict:
@@ -384,11 +385,15 @@ class SimPool:
         if getattr(w, "dead", False):
             return
         mine = [f for f in w.inflight if f.pool is self]
-        for f in mine:
-            w.inflight.remove(f)
-            w.event("deliver-at-shutdown", f.label)
-            w.stale_deliveries = getattr(w, "stale_deliveries", 0) + 1
-            f.thunk()
+        w.in_shutdown = True
+        try:
+            for f in mine:
+                w.inflight.remove(f)
+                w.event("deliver-at-shutdown", f.label)
+                w.stale_deliveries = getattr(w, "stale_deliveries", 0) + 1
+                f.thunk()
+        finally:
+            w.in_shutdown = False
 
 
 class SimThreadPool(SimPool):
